@@ -683,6 +683,7 @@ class Stream(AbstractStream):
 
         """
         if isinstance(stream_data, StreamData):
+            self.empty() # The material is replaced; it must not constrain the new phases
             self.phases = stream_data._phases
             self._imol.copy_like(stream_data._imol)
             self._thermal_condition.copy_like(stream_data)
